@@ -46,13 +46,16 @@ def writeComparison (u : Option String) (c : Comparison) : XmlNode :=
   mkEl u "Comparison" [("parameterRef", c.ref), ("useCalibratedValue", pyBool c.useCal),
                        ("comparisonOperator", c.op), ("value", c.requiredValue)] []
 
+/-- Element text as a parser sees it again: an empty string is no text at all. -/
+def textOf (s : String) : Option String := if s.isEmpty then none else some s
+
 def writeCondition (u : Option String) (c : Condition) : XmlNode :=
   let left := mkEl u "ParameterInstanceRef" [("parameterRef", c.left), ("useCalibratedValue", pyBool c.leftCal)] []
   let op := mkEl u "ComparisonOperator" [] [] (some c.op)
   let right := match c.rightParam with
-    | some rp => if rp.isEmpty then mkEl u "Value" [] [] (some ((c.rightValue).getD "None"))
+    | some rp => if rp.isEmpty then mkEl u "Value" [] [] (textOf ((c.rightValue).getD "None"))
                  else mkEl u "ParameterInstanceRef" [("parameterRef", rp), ("useCalibratedValue", pyBool c.rightCal)] []
-    | none => mkEl u "Value" [] [] (some ((c.rightValue).getD "None"))
+    | none => mkEl u "Value" [] [] (textOf ((c.rightValue).getD "None"))
   mkEl u "Condition" [] [left, op, right]
 
 mutual
